@@ -36,8 +36,10 @@ class Scn:
     def init(self):
         return self.op(op="init")
 
-    def await_exec(self, base=None, kind=None, n=1, since=None):
+    def await_exec(self, base=None, kind=None, n=1, since=None, soft_ms=0):
         o = dict(op="until", actor="sup", ev="Exec", n=n)
+        if soft_ms:
+            o.update(soft=True, ms=soft_ms)
         if kind == "rt":
             o.update(key="kind", val="rt")
         else:
